@@ -93,8 +93,8 @@ def make_case(unit):
     facets = cases.random_facets(g, template, N, sizes=sizes, p_zero=0.2, numeric="some")
     cases.entangle_some(g, facets)
     tr = {}
-    if g.chance(0.6):
-        cases.attach_insertions(g, facets, tr, hide_some=False)
+    if g.chance(0.7):
+        cases.attach_insertions(g, facets, tr, hide_some=False, n=g.r.randint(2, 4))
     w = g.weights(N, g.pick(["none", "frac", "zeros"]))
     if "numarr" in template:
         spec = sim.CubeSpec(facets, w, ("mean", "sum"))
